@@ -72,6 +72,13 @@ class C12(RunProp):
                 yield {"kind": "map", "program": [m["program"][0]], "values": mvals, "mapOver": [v[0] for v in mvals if isinstance(v[1], dict)], "mode": "zip",
                        "mapErr": rng.choice(["raise", "continue"]), "cfg": cfg, "runner": runner, "seed": rng.randint(0, 10**6), "yielding": False, "k": bad.get("k"),
                        "rejected": True}
+        # whatever the seed: a BOUNDED async map in raise mode in which one item fails while others are still in flight (suspending bodies, yielding
+        # recorder): the map's RunEnd and the shutdown come after every item's spans are closed
+        from . import c10 as _c10
+        for _ in range(4):
+            m = _c10.PROP._map_case(rng, force="raise-multi", bounded=True)
+            yield {"kind": "map", "program": m["program"], "values": m["values"], "mapOver": m["mapOver"], "mode": m["mode"], "mapErr": "raise", "cfg": {}, "runner": "async",
+                   "seed": rng.randint(0, 10**6), "yielding": rng.choice([True, True, "syncmethods"]), "k": rng.choice([2, 3])}
         forced_bad = 3      # whatever the seed: cacheable nodes on a backend whose LOOKUP raises after a few answers
         while True:
             c = rng.choice(gens)()
